@@ -173,6 +173,9 @@ func (e *c08env) attrsOf(c c08call) []gattr {
 		as = append(as, e.sortedG)
 	case 5:
 		as = append(as, gattr{key: "blob", val: gval{kind: "string", goVal: e.long, tok: "S:" + hxs(e.long), text: e.long}}, e.sortedG)
+	case 7:
+		// a top-level attribute named "time" holding a time.Time (printed like the record's own timestamp), last in sort order
+		as = append(as, gattr{key: "time", val: gval{kind: "tstamp", goVal: time.Date(2024, 5, 6, 7, 8, 9, 123456000, time.UTC), tok: "TS:" + hxs("@")}}) // the loggers' layout is "@"
 	case 6:
 		// a group that has slots but no member (sorted last): nothing of it may be left behind for the next record
 		as = append(as, gattr{key: "zz", isGroup: true, val: gval{kind: "group", items: []gattr{{nilAttr: true}}}})
@@ -241,7 +244,7 @@ func c08Stress(seed uint64, tier string, o c08out) {
 		progs := make([][]c08call, G)
 		for gi := range progs {
 			for i := 0; i < N; i++ {
-				c := c08call{logger: g.intn(nLoggers), verb: []int{0, 1, 2, 3, 4, 6, 6, 7, 8, 9, 9}[g.intn(11)], msg: c08Msgs[g.intn(len(c08Msgs))], shape: g.intn(7), id: fmt.Sprintf("g%d-c%d", gi, i)}
+				c := c08call{logger: g.intn(nLoggers), verb: []int{0, 1, 2, 3, 4, 6, 6, 7, 8, 9, 9}[g.intn(11)], msg: c08Msgs[g.intn(len(c08Msgs))], shape: g.intn(8), id: fmt.Sprintf("g%d-c%d", gi, i)}
 				if c.msg != "" || c.verb != 4 {
 					c.msg = fmt.Sprintf("call %s. %s", c.id, c.msg)
 				}
